@@ -57,8 +57,10 @@ static void runPhase(int t, int p)
         UT_PTR_SET(targets[loc], (void*) &valueCells[val]);
         fprintf(out, "{\"op\":\"set\",\"t\":%d,\"loc\":%d,\"val\":%d,\"full\":false}\n", t, loc, val);
     }
-    const char* file = fileNames[(size_t) t - 1].c_str();
-    size_t line = (size_t) (1000 * t + 10 * (p + 1));
+    // where the check of this phase stands: TestRun!FailPlace (the test itself is at line 1000*t of fileNames[t-1])
+    const int place = (t + p + 1) % 4;
+    const char* file = place >= 2 ? "Helper.cpp" : fileNames[(size_t) t - 1].c_str();
+    size_t line = place == 0 || place == 2 ? (size_t) (1000 * t + 10 * (p + 1)) : place == 1 ? (size_t) (1000 * t - 10 * (p + 1)) : (size_t) (5 + p + 1);
     const std::string& ev = evNow(ph);
     if (ev == "ok") {
         CHECK_TRUE_LOCATION(true, "CHECK", "scripted", NULLPTR, file, line);
@@ -167,12 +169,13 @@ public:
         // expected shapes:  "\n<file>:<line>: error: Failure in <TEST(g, n)>\n\t<msg>\n\n"   (failure inside the test file)
         //                   "\n<tfile>:<tline>: error: Failure in <TEST(g, n)>\n<file>:<line>: error:\n\t<msg>\n\n"
         int nloc = 0; std::string file; long line = -1; std::string tname;
+        std::string file1; long line1 = -1;      // the first location line (the test's own, when there are two)
         size_t p = 0;
         while ((p = cap.find(": error:", p)) != std::string::npos) {
             size_t ls = cap.rfind('\n', p); ls = (ls == std::string::npos) ? 0 : ls + 1;
             std::string loc = cap.substr(ls, p - ls);
             size_t c = loc.rfind(':');
-            if (c != std::string::npos) { file = loc.substr(0, c); line = atol(loc.c_str() + c + 1); nloc++; }
+            if (c != std::string::npos) { file = loc.substr(0, c); line = atol(loc.c_str() + c + 1); nloc++; if (nloc == 1) { file1 = file; line1 = line; } }
             p += 8;
         }
         size_t fi = cap.find(" Failure in ");
@@ -184,10 +187,11 @@ public:
         else if (cap.find("Maximum number of function pointers installed!") != std::string::npos) kind = "setlimit";
         else if (cap.find("PLUGINERR") != std::string::npos) kind = "plugin";
         int infile = (t > 0 && file == fileNames[(size_t) t - 1]) ? 1 : 0;
+        int first = (t > 0 && file1 == fileNames[(size_t) t - 1] && line1 == 1000L * t) ? 1 : 0;
         if (fi == std::string::npos && nloc == 0)
-            fprintf(out, "{\"op\":\"fail\",\"t\":0,\"kind\":\"unparsed\",\"line\":0,\"infile\":0,\"nloc\":0,\"text\":%s}\n", vh_jstr(cap.substr(0, 200)).c_str());
+            fprintf(out, "{\"op\":\"fail\",\"t\":0,\"kind\":\"unparsed\",\"line\":0,\"infile\":0,\"nloc\":0,\"first\":0,\"text\":%s}\n", vh_jstr(cap.substr(0, 200)).c_str());
         else
-            fprintf(out, "{\"op\":\"fail\",\"t\":%d,\"kind\":%s,\"line\":%ld,\"infile\":%d,\"nloc\":%d}\n", t, vh_jstr(kind).c_str(), line, infile, nloc);
+            fprintf(out, "{\"op\":\"fail\",\"t\":%d,\"kind\":%s,\"line\":%ld,\"infile\":%d,\"nloc\":%d,\"first\":%d}\n", t, vh_jstr(kind).c_str(), line, infile, nloc, first);
     }
     void printTestsEnded(const TestResult& r) CPPUTEST_OVERRIDE
     {
